@@ -39,7 +39,33 @@ def first_keyword_value_is_block_word():
         return f"MAP OUTPUTFORMAT IMAGEMODE FEATURE NAME 'x' END END -> {type(ex).__name__}"
 
 
+def unquoted_absolute_path_lexed_as_regex():
+    d = _loads_noexpand("MAP INCLUDE /tmp/dir/file.map END")
+    inc = d.get("include") if isinstance(d, dict) else None
+    return None if inc == ["/tmp/dir/file.map"] else f"MAP INCLUDE /tmp/dir/file.map END (expand_includes=False) loads include={inc!r}"
+
+
+def include_inside_kv_block_no_expand():
+    import mappyfile
+
+    d = _loads_noexpand('LAYER METADATA "a" "b"\nINCLUDE "md.inc"\nEND END')
+    out = mappyfile.dumps(d)
+    return None if 'INCLUDE "md.inc"' in out else "the directive is written back as the key-value pair " + repr(
+        [l.strip() for l in out.split("\n") if "md.inc" in l])
+
+
+def _loads_noexpand(text):
+    import mappyfile
+
+    try:
+        return mappyfile.loads(text, expand_includes=False)
+    except Exception as ex:
+        return {"include": f"{type(ex).__name__}"}
+
+
 REPRO = {
+    "unquoted-absolute-path-lexed-as-regex": unquoted_absolute_path_lexed_as_regex,
+    "include-inside-key-value-block-no-expand": include_inside_kv_block_no_expand,
     "mod-at-comparison-level": mod_at_comparison_level,
     "querymap-style-keyword": querymap_style_keyword,
     "first-keyword-value-is-block-word": first_keyword_value_is_block_word,
